@@ -456,7 +456,7 @@ fn operands(rng: &mut Rng, n: usize, thorough: bool) -> Vec<(Vec<u8>, Vec<u8>)> 
         b[(bit / 8 + 5) % n] ^= 1 << (bit % 8);
         v.push((a, b));
     }
-    for _ in 0..(if thorough { 160 } else { 5 }) {
+    for _ in 0..(if thorough { 60 } else { 5 }) {
         v.push((rng.bytes(n), rng.bytes(n)));
     }
     // related operands: b = !a (sums of all-ones, no shared bits), b = a (equal words), b = a + 1 per 64-bit word, b = -a
